@@ -499,10 +499,19 @@ func c08GorgoniaSliceShape(ref []int, sliced []int) []int {
 
 func c08Judge(c c08Case, res opResult) string {
 	isSlice := c.op == "Slice"
-	negStep := false
+	negStep, negIndex := false, false
 	for _, s := range c.steps {
 		if s < 0 {
 			negStep = true
+		}
+	}
+	if isSlice && len(c.ins) >= 3 {
+		for _, t := range c.ins[1:3] {
+			for _, v := range f64s(t) {
+				if v < 0 {
+					negIndex = true
+				}
+			}
 		}
 	}
 	if res.panicked {
@@ -530,8 +539,17 @@ func c08Judge(c c08Case, res opResult) string {
 		return ""
 	}
 	if res.err != nil {
-		ev.Refused("C08-" + c.op)
-		return "" // a request outside what the library implements is refused
+		// "A request outside what the library implements is refused": the library implements every
+		// permutation, concatenation, Gather and two-way Expand of the quantifier and every Slice
+		// with non-negative starts and ends (of any size: clamped), positive steps and a non-empty
+		// result; what it does not implement, and refuses, are negative starts or ends (counting
+		// from the end), negative steps, and Slices selecting nothing. A refusal of anything else
+		// takes back the first sentence of the statement.
+		if isSlice && (negStep || c.empty || negIndex) {
+			ev.Refused("C08-Slice-negative-index-or-step-or-empty")
+			return ""
+		}
+		return "a request the statement covers and the library implements was refused: " + res.err.Error()
 	}
 	if len(res.outs) != 1 || res.outs[0] == nil {
 		return "expected exactly one non-nil output"
